@@ -3,6 +3,10 @@ CONSTANTS
   N = 3
   DSNames = {"role250"}
   MaxExtra = 0
+  SkipSet = {"sync", "jump", "unknown", "unknown0", "unknownL", "byte"}
+  HdrSet = {"bbox", "filets"}
+  RefPolicy = "any"
+  BulkN = 5
   RoleLimit = 251
   ExportHist = FALSE
 INVARIANTS TypeOK TableAgree RegsAgree DecodedOK
